@@ -323,6 +323,10 @@ def check_site(ctx, prj, fi: FuncInfo, facts: LengthFacts, spec: dict, consts=No
             ctx.discharged += 1
     regs, _ = regions(fi, pred, consts, label=lab)
     desc = fmt_regions(regs)
+    if bad and evaluated["fallback"] and not evaluated["n"] and all(r[2] in ((), None) for r in regs):
+        # the site could not be evaluated and the syntactic reading finds no category-dependent construct in it at all:
+        # nothing was recognised, so nothing is reported
+        raise AnalysisError(f"C02-R1: {fi.disp}: the decision of this site could be neither evaluated nor read off its syntax")
     if bad:
         v, got, want = bad
         ctx.viol("R1", key, fi.site(),
